@@ -377,6 +377,11 @@ impl FixtureDatabase {
             }
         }
 
+        // DashMap iteration order differs between runs: return references in a stable order.
+        all_references.sort_by(|a, b| {
+            (&a.file_path, a.line, a.start_char).cmp(&(&b.file_path, b.line, b.start_char))
+        });
+
         info!(
             "Found {} total references for fixture: {}",
             all_references.len(),
